@@ -8,6 +8,14 @@ CLAIMED = {
              note='Trusts clang-14 -O1 lowering, ll2c, CBMC/MiniSat. Excluded by assumption: log2/rounding of x <= 0, k == 0, negative operands of div_ceil, n+k-1 not representable. div_ceil/round_up only for uint8_t operands so far; Aggregate not yet decided.',
              ref='DESIGN.md §4 C20'),
 }
+CLAIMED.update({
+ 'C15': dict(text='Every (family, entry point, n <= 16) network is run on a symbolic key vector with identity tags; SAT decides sortedness + permutation for ALL 0/1 key vectors (n = 0..16) and ALL 8-bit key vectors (n <= 6 quick, n <= 10 thorough, 2-bit keys to n = 16 thorough). Bounded by key width per n.',
+             note='For n beyond the wide-key bound the general-order claim rests on the zero-one principle applied to CS_IfSwap (whose behaviour on arbitrary keys is decided by the small-n queries). Comparators: < and > on a key projection.', ref='DESIGN.md §4 C15'),
+ 'C09': dict(text='All eight loser-tree classes: symbolic initial keys / exhaustion, init(), then H symbolic feed-or-exhaust steps (keys not monotone); SAT decides winner-is-live, winner-is-minimal and stable tie-breaking after every step for all 8-bit keys. Bounds: k <= 3 players with H = 4, k = 4..5 with H = 2 (quick); k <= 8, H <= 6 (thorough).',
+             note='Unguarded variants: keys strictly precede the sentinel, no exhaustion (documented precondition). Histories longer than the bound are outside.', ref='DESIGN.md §4 C09'),
+ 'C18': dict(text='Differential check of every StringView query against the real std::string_view (same pipeline) on symbolic bytes from {0x00,a,b,0x80,0xFF} (all 256 values in thorough), haystack length 0..4, needle 0..3, pos/n from {0..6,npos-1,npos}; results, copied bytes and exception kinds compared by SAT.',
+             note='Cases undefined for std::string_view are assumed away (listed in the evidence). libstdc++ exception constructors are body-less stubs; only the exception type is compared.', ref='DESIGN.md §4 C18'),
+})
 NA_PENDING = {}
 def main():
     props = [json.loads(l) for l in open(os.path.join(V, 'properties.jsonl'))]
